@@ -240,7 +240,7 @@ def _df_fillna(df, method = None, axis = 0, limit = None):
                 valid = np.asarray(nonan.values, dtype = bool)
                 res = res.iloc[valid.argmax():] if valid.any() else res.iloc[:0] # by position: res[label:] is a positional slice on an integer index
             elif m == 'nona':
-                res = res[nonan.values]
+                res = res[np.asarray(nonan.values, dtype = bool)] # a frame without rows reduces to a float mask, which would select columns
         else:
             if is_num(limit) and limit<0:
                 params = dict(limit=abs(limit)) if is_series(df) else dict(axis=axis, limit=abs(limit))
@@ -322,6 +322,7 @@ def _nona(df, value = np.nan, edge = None):
         mask = df == value
     while len(mask.shape) > 1:
         mask = mask.min(axis = 1)
+    mask = np.asarray(mask, dtype = bool) # a frame without rows reduces to a float mask, which would select columns
     res = df[~mask]
     if edge is None or len(res) == 0 or not is_pd(df):
         return res
